@@ -129,6 +129,16 @@ def check_shared_drop(ctx, cf, b, close_calls):
                 if x[0] == "call" and ecall_matches(x, ATOMIC) and x[3] and mentions_field(x[3][0], counter):
                     ok_edge = (s, tt, x)
                     break
+        wrong_edge = None
+        for s, tt, f in facts:
+            if f[0] == "variant" and f[2] <= frozenset(["None", "Err"]):
+                x = strip(f[1], through_calls=False)
+                if x[0] == "call" and ecall_matches(x, ATOMIC) and x[3] and mentions_field(x[3][0], counter):
+                    wrong_edge = (s, tt, x)
+        if ok_edge is None and wrong_edge is not None:
+            ctx.violated("R03.2", cf, "decision=inverted", where,
+                         "close is called on the None/Err edge of `%s`, i.e. exactly when this handle was NOT the last owner: the stream ends while other clones are alive and never ends when the last one goes" % fmt(wrong_edge[2], 3))
+            continue
         if ok_edge is None:
             if not facts:
                 ctx.violated("R03.2", cf, "decision=unconditional", where,
